@@ -581,7 +581,7 @@ func c14Loop(r *rand.Rand) Case {
 func init() {
 	register(&Prop{
 		ID:   "C14",
-		Rule: "kinds: foreach (literal items / list query / leaf query / unresolved query; variable name default or custom; body = log of the variable + optional trace/set + failure at one chosen item through a guarded child step or always; body's own when ignored), foreach-container (each key exactly once, any order; Go side only), call (define then call with single-key, default and dotted argsPath incl. paths next to existing data; undefined callee; same name defined twice; failing callee; second call; literal and templated arguments incl. a nested map, read back inside the callee), call-in-loop (a call in a forEach body, once or twice per item with the data changed in between: top-level and nested arguments must be rendered anew every time), literal items incl. the empty string, foreach-nested (a forEach in a forEach body, default and custom variable names on either level), define-then-call-later (two runs on one executor: a rejected second define must not replace the first), loop (counter loops with bounds 0-5 whose body and post-action log the counter, post increments it; body failing at i=0; loops whose test is false at once; a stale counter in the data before init; init that puts the counter beyond the bound). Observables: full event sequence, error, final data vs the Coq interpreter; Go side: variable / arguments absent afterwards, unrelated data undisturbed, items x body in order up to the failure, init,(test,body,post)^n,test. Non-trivial: failure at an inner item / dotted argsPath / >= 2 iterations. Distinct by Gallina term. Calls that pass nothing (with stale user data at the arguments path), a callee called without arguments from inside another callable, and (Go side only) counting loops of 999-2048 iterations. Templated argument paths; guarded steps reading what an earlier step of the same cloned body wrote; a body whose log operation reads what its template operation wrote; forEach items/queries by reference inside another forEach (Go side).",
+		Rule: "kinds: foreach (literal items / list query / leaf query / unresolved query; variable name default or custom; body = log of the variable + optional trace/set + failure at one chosen item through a guarded child step or always; body's own when ignored), foreach-container (each key exactly once, any order; Go side only), call (define then call with single-key, default and dotted argsPath incl. paths next to existing data; undefined callee; same name defined twice; failing callee; second call; literal and templated arguments incl. a nested map, read back inside the callee), call-in-loop (a call in a forEach body, once or twice per item with the data changed in between: top-level and nested arguments must be rendered anew every time), literal items incl. the empty string, foreach-nested (a forEach in a forEach body, default and custom variable names on either level), define-then-call-later (two runs on one executor: a rejected second define must not replace the first), loop (counter loops with bounds 0-5 whose body and post-action log the counter, post increments it; body failing at i=0; loops whose test is false at once; a stale counter in the data before init; init that puts the counter beyond the bound). Observables: full event sequence, error, final data vs the Coq interpreter; Go side: variable / arguments absent afterwards, unrelated data undisturbed, items x body in order up to the failure, init,(test,body,post)^n,test. Non-trivial: failure at an inner item / dotted argsPath / >= 2 iterations. Distinct by Gallina term. Calls that pass nothing (with stale user data at the arguments path), a callee called without arguments from inside another callable, and (Go side only) counting loops of 999-2048 iterations. Templated argument paths; guarded steps reading what an earlier step of the same cloned body wrote; a body whose log operation reads what its template operation wrote; forEach items/queries by reference inside another forEach (Go side). A forEach whose query goes through the outer item; items by reference to a number and a boolean; step orders 5/10/100.",
 		Gen: func(r *rand.Rand, tier string, idx int) Case {
 			switch idx % 8 {
 			case 0, 1, 2:
